@@ -115,6 +115,9 @@ def main():
         rec["confirmed"] = ok
         # 2. my checks against /repo with the patch
         if ok:
+            # checks share /verif's harness/go.mod and build output: one at a time across parallel seedtest processes
+            import fcntl
+            lk = open("/var/tmp/seedtest.lock", "w"); fcntl.flock(lk, fcntl.LOCK_EX)
             rc, out = sh(["git", "-C", TARGET, "apply", patch])
             if rc != 0:
                 rec["checks"] = "patch does not apply to HEAD: " + out[-300:]
@@ -130,6 +133,7 @@ def main():
                     sh(["git", "-C", TARGET, "checkout", "--", "."])
                 rec["checks"] = verdicts
                 rec["detected"] = any(v["exit"] == 1 for v in verdicts.values())
+            fcntl.flock(lk, fcntl.LOCK_UN); lk.close()
         # 3. keep
         if ok:
             dst = os.path.join(VERIF, "seeded", "%s-%s%s" % (pid, os.environ.get("SEED_ROUND", ""), name))
